@@ -417,6 +417,79 @@ def judge_handler(case):
     return {"nontrivial": bool(mine), "classes": ["handler-name-not-used-later"]}
 
 
+def local_import_scan(modname, path):
+    """(function, name, line of the first function-level import binding it, lines that load it before): a
+    function-level `import lena.flow` makes `lena` a local name of the whole function, so a use of it above
+    that statement (outside any loop) fails with UnboundLocalError although the module imports lena too"""
+    import ast
+    with open(path) as f:
+        tree = ast.parse(f.read())
+    out = []
+
+    def own_nodes(fn):
+        """nodes of the function's own scope: (node, inside_loop)"""
+        stack = [(c, False) for c in fn.body]
+        while stack:
+            n, in_loop = stack.pop()
+            yield n, in_loop
+            if isinstance(n, (ast.FunctionDef, ast.AsyncFunctionDef, ast.Lambda, ast.ClassDef)):
+                continue
+            loop = in_loop or isinstance(n, (ast.For, ast.While))
+            for c in ast.iter_child_nodes(n):
+                stack.append((c, loop))
+
+    def visit(node, qual):
+        for c in ast.iter_child_nodes(node):
+            if isinstance(c, (ast.FunctionDef, ast.AsyncFunctionDef)):
+                q = qual + "." + c.name if qual else c.name
+                nodes = list(own_nodes(c))
+                declared = set()
+                for n, _ in nodes:
+                    if isinstance(n, (ast.Global, ast.Nonlocal)):
+                        declared.update(n.names)
+                bound = {}
+                for n, _ in nodes:
+                    if isinstance(n, (ast.Import, ast.ImportFrom)):
+                        for a in n.names:
+                            nm = a.asname or a.name.split(".")[0]
+                            if nm != "*" and nm not in declared:
+                                bound[nm] = min(bound.get(nm, n.lineno), n.lineno)
+                params = set(a.arg for a in c.args.args + c.args.kwonlyargs + getattr(c.args, "posonlyargs", []))
+                for nm, line in sorted(bound.items()):
+                    if nm in params:
+                        continue
+                    other_binding = any(isinstance(n, ast.Name) and n.id == nm and isinstance(n.ctx, ast.Store) and n.lineno < line for n, _ in nodes)
+                    early = sorted(n.lineno for n, in_loop in nodes
+                                   if isinstance(n, ast.Name) and n.id == nm and isinstance(n.ctx, ast.Load) and n.lineno < line and not in_loop)
+                    out.append((q, nm, line, [] if other_binding else early))
+                visit(c, q)
+            elif isinstance(c, ast.ClassDef):
+                visit(c, qual + "." + c.name if qual else c.name)
+            else:
+                visit(c, qual)
+    visit(tree, "")
+    return out
+
+
+def local_import_cases(tier):
+    for modname, path in lena_modules():
+        for qual, name, line, early in local_import_scan(modname, path):
+            yield {"module": modname, "qual": qual, "name": name}
+
+
+def judge_local_import(case):
+    path = dict(lena_modules()).get(case["module"])
+    if path is None:
+        return {"nontrivial": False, "classes": ["module-gone"]}
+    mine = [h for h in local_import_scan(case["module"], path) if h[0] == case["qual"] and h[1] == case["name"]]
+    for qual, name, line, early in mine:
+        if early:
+            raise Violation("name-bound-by-a-function-level-import-used-before-it:%s:%s" % (case["module"], qual),
+                            "%s, %s: `import` on line %d makes %s a local name of the function, line %s loads it before that statement: "
+                            "UnboundLocalError whenever that line is reached" % (case["module"], qual, line, name, early))
+    return {"nontrivial": bool(mine), "classes": ["function-level-import-not-used-before-it"]}
+
+
 _CHAINS = {}
 
 
@@ -592,6 +665,9 @@ CHECKS = [
     Check("static_names", judge_static, cases=static_cases, exhaustive=True,
           rule="every (function / method / class body / lambda / comprehension, global name it loads) pair in lena/: the name is defined in the module namespace after import, or is a builtin, or sits in code dead under the "
                "running Python version. Non-trivial = resolved in the module namespace (i.e. it could be missing)."),
+    Check("local_imports", judge_local_import, cases=local_import_cases, exhaustive=True, shards=1,
+          rule="every (function, name bound by an import statement inside that function): no load of the name on an earlier line of the function's own scope outside loops "
+               "(it would be UnboundLocalError, a NameError, whatever the module imports at its top)."),
     Check("handler_names", judge_handler, cases=handler_cases, exhaustive=True, shards=1,
           rule="every `except E as name` clause in lena/: the name (deleted by Python 3 when the handler ends) is not loaded later in the same scope without having been assigned again "
                "(it would be an UnboundLocalError, a NameError, on exactly the inputs that make the handler run). All cases non-trivial."),
